@@ -195,6 +195,11 @@ func main() {
 			c.Family("prims", n(40000, 2400000), famPrims)
 		}
 
+		// concurrent decoders: the codec keeps pooled scratch buffers; what one goroutine decodes must not depend on what
+		// the others are decoding at the same time (runs in both variants; the race detector sees it in the second)
+		c.Family("conc.decode", n(60, 2400), famConcurrentDecode)
+		c.Require("conc.decodes", 10000)
+
 		c.Family("hostile.mutate", n(80000, 4800000)/scale, famHostileMutate)
 		c.Family("hostile.trunc", n(2000, 120000)/scale, famHostileTrunc)
 		c.Family("hostile.random", n(25000, 1500000)/scale, famHostileRandom)
